@@ -703,6 +703,55 @@ func SmallStreamG(key, field, group string) KV {
 	return KV{Key: []byte(key), Type: 15, Raw: raw.Bytes(), Ops: ops}
 }
 
+// SmallStreamX (C04): SmallStreamG("…","field","g") with a third entry that carries its OWN field list (flags 0:
+// entry-num-fields, field, value) — the decoder's second count-driven loop — and the group at the last id.
+func SmallStreamX(key string) KV {
+	var lp []byte
+	for _, e := range [][]byte{lpInt(3), lpInt(0), lpInt(1), lpStr("field"), lpInt(0),
+		lpInt(2), lpInt(0), lpInt(1), lpStr("v1"), lpInt(4),
+		lpInt(2), lpInt(5), lpInt(0), lpStr("v2"), lpInt(4),
+		lpInt(0), lpInt(7), lpInt(0), lpInt(1), lpStr("g2"), lpStr("v3"), lpInt(6)} {
+		lp = append(lp, e...)
+	}
+	body := make([]byte, 6, 6+len(lp)+1)
+	binary.LittleEndian.PutUint32(body[0:], uint32(6+len(lp)+1))
+	binary.LittleEndian.PutUint16(body[4:], 22)
+	body = append(append(body, lp...), 0xFF)
+	master := make([]byte, 16)
+	binary.BigEndian.PutUint64(master[0:], 1000)
+	id := make([]byte, 16)
+	binary.BigEndian.PutUint64(id[0:], 1000)
+	binary.BigEndian.PutUint64(id[8:], 1)
+	var raw bytes.Buffer
+	raw.Write(EncLen(1))
+	raw.Write(EncStr(master))
+	raw.Write(EncStr(body))
+	raw.Write(EncLen(3))    // length
+	raw.Write(EncLen(1007)) // last id
+	raw.Write(EncLen(0))
+	raw.Write(EncLen(1)) // groups
+	raw.Write(EncStr([]byte("g")))
+	raw.Write(EncLen(1007))
+	raw.Write(EncLen(0))
+	raw.Write(EncLen(1)) // global PEL
+	raw.Write(id)
+	raw.Write([]byte{5, 0, 0, 0, 0, 0, 0, 0})
+	raw.Write(EncLen(1))
+	raw.Write(EncLen(1)) // consumers
+	raw.Write(EncStr([]byte("c1")))
+	raw.Write(make([]byte, 8))
+	raw.Write(EncLen(1))
+	raw.Write(id)
+	return KV{Key: []byte(key), Type: 15, Raw: raw.Bytes(), Ops: [][]string{
+		{"xadd", key, "1000-1", "field", "v1"},
+		{"xadd", key, "1005-0", "field", "v2"},
+		{"xadd", key, "1007-0", "g2", "v3"},
+		{"xsetid", key, "1007-0", "ENTRIESADDED", "3", "MAXDELETEDID", "0-0"},
+		{"xgroup", "CREATE", key, "g", "1007-0", "ENTRIESREAD", "3"},
+		{"xclaim", key, "g", "c1", "0", "1000-1", "TIME", "5", "RETRYCOUNT", "1", "JUSTID", "FORCE"},
+	}}
+}
+
 // ModuleValue: a value of a module type (RDB type 7, module id written as a
 // 64-bit length, one unsigned and one string field, EOF opcode): replayable
 // through RESTORE only.
